@@ -94,7 +94,7 @@ func genC14(t *rapid.T) C14Case {
 				if rapid.Bool().Draw(t, "cleanp") {
 					c.Toks = append(c.Toks, Tok{Flag: "p", Form: form(), Val: rapid.SampledFrom([]string{"r", "wa", "rwxa", "x", "ar", "rr"}).Draw(t, "p")})
 				} else {
-					c.Toks = append(c.Toks, Tok{Flag: "k", Form: form(), Val: rapid.SampledFrom([]string{"k", "a b", "a,b", "x=y", "k1,k 2,k3", "-k", "#c"}).Draw(t, "k")})
+					c.Toks = append(c.Toks, Tok{Flag: "k", Form: form(), Val: rapid.SampledFrom([]string{"k", "sys_admin", "a b", "a,b", "x=y", "k1,k 2,k3", "-k", "#c", "mounts, sys_mount", "sys_", "open", "all", "always,exit", "0x10", "-1", "unset", "b64"}).Draw(t, "k")})
 				}
 			}
 		} else {
@@ -112,9 +112,9 @@ func genC14(t *rapid.T) C14Case {
 				case 2:
 					c.Toks = append(c.Toks, Tok{Flag: "C", Form: form(), Val: rapid.SampledFrom([]string{"uid=euid", "uid!=euid", "auid!=obj_uid", "gid=egid", "suid=euid"}).Draw(t, "C")})
 				case 3:
-					c.Toks = append(c.Toks, Tok{Flag: "S", Form: form(), Val: rapid.SampledFrom([]string{"open", "open,close", " read , write", "all", "1,2,3", "execve"}).Draw(t, "S")})
+					c.Toks = append(c.Toks, Tok{Flag: "S", Form: form(), Val: rapid.SampledFrom([]string{"open", "sys_open", "open,close", " read , write", "all", "1,2,3", "execve", "sys_read,sys_write", "__NR_open", "SYS_open"}).Draw(t, "S")})
 				default:
-					c.Toks = append(c.Toks, Tok{Flag: "k", Form: form(), Val: rapid.SampledFrom([]string{"k", "a b", "a,b", "x=y", "k1,k 2,k3"}).Draw(t, "k")})
+					c.Toks = append(c.Toks, Tok{Flag: "k", Form: form(), Val: rapid.SampledFrom([]string{"k", "sys_admin", "a b", "a,b", "x=y", "k1,k 2,k3", "sys_", "open", "all", "key=x", "k=", "-EPERM", "unset"}).Draw(t, "k")})
 				}
 			}
 		}
